@@ -128,6 +128,52 @@ class Flow:
             return {"unknown"}
         return {"unknown"}
 
+    def name_parts(self, e: ast.AST, seen=frozenset(), depth: int = 0) -> list[ast.AST]:
+        """the expressions that give the last path component(s) of a derived path: the argument of with_name/with_stem/joinpath, the right
+        operand of `/`, the later arguments of os.path.join (through locals and str()/Path() wrappers)"""
+        if depth > 8 or e is None:
+            return []
+        if isinstance(e, ast.Name):
+            out = []
+            for v in self.values(e.id, seen):
+                out += self.name_parts(v, seen | {e.id}, depth + 1)
+            return out
+        if isinstance(e, ast.BinOp) and isinstance(e.op, ast.Div):
+            return [e.right]
+        if isinstance(e, ast.IfExp):
+            return self.name_parts(e.body, seen, depth + 1) + self.name_parts(e.orelse, seen, depth + 1)
+        if isinstance(e, ast.Call):
+            last = dotted(e.func).split(".")[-1]
+            if isinstance(e.func, ast.Attribute) and last in ("with_name", "with_stem", "joinpath") and e.args:
+                return list(e.args)
+            if last == "join" and len(e.args) > 1:
+                return list(e.args[1:])
+            if last in ("Path", "PurePath", "str", "fspath", "abspath", "realpath", "expanduser", "normpath") and e.args:
+                return self.name_parts(e.args[0], seen, depth + 1)
+            if isinstance(e.func, ast.Attribute) and last in ("expanduser", "resolve", "absolute", "with_suffix"):
+                return self.name_parts(e.func.value, seen, depth + 1)
+        return []
+
+    def depends_on(self, e: ast.AST, seen=frozenset(), depth: int = 0) -> set[str]:
+        """which roots a value is computed from: 'target' (the path parameter), 'converted' (the converter's result), 'temp'"""
+        out: set[str] = set()
+        if depth > 10 or e is None:
+            return out
+        for x in ast.walk(e):
+            if isinstance(x, ast.Call) and any(x is c for c in self.convert_calls):
+                out.add("converted")
+            elif isinstance(x, ast.Call) and self.is_temp_ctor(x):
+                out.add("temp")
+            elif isinstance(x, ast.Name) and isinstance(x.ctx, ast.Load):
+                if x.id in seen:
+                    continue
+                vals = self.values(x.id, seen)
+                if x.id in self.params and x.id not in ("self", "converter", "cls"):
+                    out.add("target")
+                for v in vals:
+                    out |= self.depends_on(v, seen | {x.id}, depth + 1)
+        return out
+
     def value_origin(self, e: ast.AST, depth: int = 0) -> list[ast.AST]:
         """the expressions a value may stand for (temporaries expanded)"""
         return alternatives(e, self.fn)
@@ -435,6 +481,15 @@ def r18_3(ctx: Ctx, fi, fl: Flow, g: CFG, fmt: str) -> None:
             if kind in WRITE_FUNCS and WRITE_FUNCS[kind] == 1 and c.args:
                 sl = fl.location(c.args[0])
                 ctx.instance("R18.3", fi.where(c), f"{short}: source of {kind} `{unparse(c.args[0])[:40]}` derives from {sorted(sl)}")
+                # a sibling of the converter's output (companion folder ...): its NAME must come from the converter's result as well
+                for part in fl.name_parts(c.args[0]):
+                    dep = fl.depends_on(part)
+                    ctx.instance("R18.3", fi.where(c), f"{short}: the name `{unparse(part)[:40]}` of the moved source is computed from {sorted(dep) or ['constants']}")
+                    if "converted" in sl and "target" in dep and "converted" not in dep:
+                        ctx.violation("R18.3", short, "source name derived from the target: " + unparse(part)[:40], fi.where(c),
+                                      f"{short}: what is moved to the target area is looked up in the converter's output directory under the name `{unparse(part)[:50]}`, which is computed "
+                                      "from the requested target path, not from the converter's result: for a target whose name differs from the converter's output name it is never "
+                                      "found (it is not moved and is lost with the temporary directory)")
                 if "converted" not in sl:
                     if sl <= {"unknown"}:
                         ctx.gap("R18.3", f"{short}: the source `{unparse(c.args[0])[:50]}` moved to the target could not be traced")
